@@ -1,7 +1,7 @@
 from propcfg.common import *
 
 CFG = {
-    "disabled": True,
+    "disabled": False,
     "props": "Props/C19.v",
     "corr": ["Corr/RoutingCorr.v"],
     "engines": [("routing", [])],
